@@ -36,7 +36,7 @@ theorem closeOK_of_noclose (c : Codec) (o : ObjCfg) : ∀ (es : List Ev) (P : Li
     the FDT instance completes, fewer than 10 FDT instances complete before its next packet
     (`fdt_current` keeps 10).  Then the object writer gets `complete` - for every decoder satisfying
     the contract, every join point, whatever is interleaved. -/
-theorem late_join_two_cycles (c : Codec) (rc : RxCfg) (o : ObjCfg)
+theorem late_join_two_cycles_nonempty (c : Codec) (rc : RxCfg) (o : ObjCfg)
     (hN : o.ks.isEmpty = false) (hfit : Fits rc o) (a b c2 : List Ev)
     (hgen : ∀ s, Ev.pkt s ∈ a ++ Ev.fdt true :: (b ++ c2) → Genuine o s)
     (hcar : ∀ s, Ev.pkt s ∈ a ++ Ev.fdt true :: (b ++ c2) → s.close = false)
@@ -53,6 +53,29 @@ theorem late_join_two_cycles (c : Codec) (rc : RxCfg) (o : ObjCfg)
     rw [mem_pktSyms] at hq ⊢
     simp [hq]
 
+/-- **C16 (receiver side), every join point, EVERY object - empty ones included** (D14 repaired, /repo
+    7ec1ac7).  As `late_join_two_cycles_nonempty`; for an EMPTY object (no block; its lone packet per cycle
+    carries the close-object flag) nothing is asked of the packets: the first packet of the object
+    after the completion of an FDT instance listing it delivers it, whatever arrived before. -/
+theorem late_join_two_cycles (c : Codec) (rc : RxCfg) (o : ObjCfg) (hfit : Fits rc o) (a b c2 : List Ev)
+    (hgen : o.ks.isEmpty = false → ∀ s, Ev.pkt s ∈ a ++ Ev.fdt true :: (b ++ c2) → Genuine o s)
+    (hcar : o.ks.isEmpty = false → ∀ s, Ev.pkt s ∈ a ++ Ev.fdt true :: (b ++ c2) → s.close = false)
+    (hatt : (o.ks.isEmpty = false ∧ ∃ s, Ev.pkt s ∈ a) ∨
+      ∃ fs rest, b ++ c2 = fs ++ rest ∧ (∀ e, e ∈ fs → ∃ l, e = Ev.fdt l) ∧ KeepsAge 0 fs ∧
+        ∃ s rest', rest = Ev.pkt s :: rest')
+    (hcycle : AllDec c o (pktSyms c2)) :
+    1 ≤ (runObj c.canDecode rc o {} (a ++ Ev.fdt true :: (b ++ c2))).completes := by
+  by_cases hN : o.ks.isEmpty = false
+  · apply late_join_two_cycles_nonempty c rc o hN hfit a b c2 (hgen hN) (hcar hN) ?_ hcycle
+    rcases hatt with ⟨_, h⟩ | h
+    · exact Or.inl h
+    · exact Or.inr h
+  · have hE : o.ks.isEmpty = true := by simpa using hN
+    rcases hatt with ⟨h, _⟩ | ⟨fs, rest, h1, h2, h3, s, rest', h4⟩
+    · exact absurd h hN
+    · rw [h1, h4]
+      exact empty_delivered c rc o hE a fs rest' s h2 h3
+
 /-- **C16, stream level (FullFDT carousel), every join offset.**  `stream` = what the sender emits,
     `j` = the join offset (ANY), `n` = how much the late joiner is fed, written `ps1 ++ ps2` at the end of
     the first full cycle after the join: `ps1` contains a whole transfer of an FDT instance `f` (hence
@@ -60,7 +83,7 @@ theorem late_join_two_cycles (c : Codec) (rc : RxCfg) (o : ObjCfg)
     the object (hence decodable symbols of each block: `hcycle`).  Carousel packets carry no close-object
     flag (`hcar`; the lone packet of an EMPTY object does - finding D14 - hence `hN`).  Then the object
     writer gets `complete`. -/
-theorem late_join_two_cycles_stream (cF cO : Codec) (rc : RxCfg) (s : SessCfg) (o : ObjCfg)
+theorem late_join_two_cycles_stream_nonempty (cF cO : Codec) (rc : RxCfg) (s : SessCfg) (o : ObjCfg)
     (hto : o.toi ≠ 0) (hN : o.ks.isEmpty = false) (hfit : Fits rc o)
     (hall : ∀ f, f ∈ s.fdts → f.files.contains o.toi = true)
     (f : FdtCfg) (hfind : s.fdts.find? (fun x => x.id == f.id) = some f)
@@ -99,6 +122,33 @@ theorem late_join_two_cycles_stream (cF cO : Codec) (rc : RxCfg) (s : SessCfg) (
     intro h
     exact hsome (List.append_eq_nil_iff.mp h).2
 
+/-- **C16, stream level, EVERY object (empty ones included), every join offset.** -/
+theorem late_join_two_cycles_stream (cF cO : Codec) (rc : RxCfg) (s : SessCfg) (o : ObjCfg)
+    (hto : o.toi ≠ 0) (hfit : Fits rc o)
+    (hall : ∀ f, f ∈ s.fdts → f.files.contains o.toi = true)
+    (f : FdtCfg) (hfind : s.fdts.find? (fun x => x.id == f.id) = some f)
+    (hfN : f.ks.isEmpty = false) (hflook : f.ks.size ≤ rc.maxLook)
+    (hfresh : blockDone cF.canDecode f.ks s.fdtP [] 0 = false)
+    (stream : List Pkt) (j n : Nat) (ps1 ps2 : List Pkt)
+    (hjoin : (stream.drop j).take n = ps1 ++ ps2)
+    (hgenF : ∀ p, p ∈ stream → p.toi = 0 → p.fdtId = f.id → Genuine (fdtObj s f) (toSym p) ∧ p.close = false)
+    (hgenO : o.ks.isEmpty = false → ∀ q, q ∈ osyms o stream → Genuine o q)
+    (hcar : o.ks.isEmpty = false → ∀ q, q ∈ osyms o stream → q.close = false)
+    (hwhole : AllDec cF (fdtObj s f) (fsyms f.id ps1))
+    (hcycle : AllDec cO o (osyms o ps2))
+    (hsome : osyms o ps2 ≠ []) :
+    1 ≤ (observe cF.canDecode cO.canDecode rc s o ((stream.drop j).take n)).completes := by
+  by_cases hN : o.ks.isEmpty = false
+  · exact late_join_two_cycles_stream_nonempty cF cO rc s o hto hN hfit hall f hfind hfN hflook hfresh stream j n ps1 ps2
+      hjoin hgenF (hgenO hN) (hcar hN) hwhole hcycle hsome
+  · have hE : o.ks.isEmpty = true := by simpa using hN
+    have hmem : ∀ p, p ∈ ps1 ++ ps2 → p ∈ stream := by
+      intro p hp; rw [← hjoin] at hp
+      exact List.mem_of_mem_drop (List.mem_of_mem_take hp)
+    rw [hjoin]
+    exact stream_core_empty cF cO rc s o hto hE hall f hfind hfN hflook hfresh ps1 ps2
+      (fun p hp => hgenF p (hmem p (List.mem_append_left _ hp))) hwhole hsome
+
 /-- **C16, session level: sender model ∘ suffix ∘ receiver model.**  The carouselled object's packets in
     the stream all belong to the transfer listing `tr` its block encoder emits when `is_last_transfer`
     is false (`hsrc`); by `emitTransfer_facts` they are genuine and none carries the close-object flag -
@@ -121,10 +171,10 @@ theorem late_join_two_cycles_session (cF cO : Codec) (rc : RxCfg) (s : SessCfg) 
     (hsome : osyms o ps2 ≠ []) :
     1 ≤ (observe cF.canDecode cO.canDecode rc s o ((stream.drop j).take n)).completes := by
   obtain ⟨a1, _, _, _, a5⟩ := emitTransfer_facts _ (encOK_obj s o false hw hN hblocks) tr h1
-  exact late_join_two_cycles_stream cF cO rc s o hto hN hfit hall f hfind hfN hflook hfresh stream j n ps1 ps2 hjoin hgenF
+  exact late_join_two_cycles_stream_nonempty cF cO rc s o hto hN hfit hall f hfind hfN hflook hfresh stream j n ps1 ps2 hjoin hgenF
     (fun q hq => a1 q (hsrc q hq)) (fun q hq => a5 rfl q (hsrc q hq)) hwhole hcycle hsome
 
-/-! ### finding D14: the empty object -/
+/-! ### D14 (repaired): the empty object -/
 
 def rcOn : RxCfg := { receiveOnce := true, maxSize := 10485760 }
 
@@ -133,14 +183,12 @@ def empty : ObjCfg :=
   { toi := 1, scheme := .nocode, ks := #[], blen := #[], p := 0, inbandFti := true, transfers := 1,
     carousel := true, noCache := false }
 
-/-- **Finding D14 (`C16:empty-object-before-fdt`).**  Joined between the FDT and the object: the lone
-    packet of the empty object arrives first, `push_to_block2` completes the object without a writer
-    and the TOI enters `objects_completed`; under receive-once every later copy is ignored, however
-    many cycles follow (three shown).  Joined before the FDT it is delivered. -/
-theorem empty_object_never_delivered :
+/-- the history that was never delivered before the repair of D14 (joined between the FDT and the
+    object: the lone packet first) is now delivered by the first packet after the FDT instance -/
+theorem empty_object_delivered_after_repair :
     (runObj (canDecodeOf .nocode) rcOn empty {}
-      [.pkt ⟨0, 0, true⟩, .fdt true, .pkt ⟨0, 0, true⟩, .fdt true, .pkt ⟨0, 0, true⟩, .fdt true, .pkt ⟨0, 0, true⟩]).completes = 0 ∧
-    (runObj (canDecodeOf .nocode) rcOn empty {} [.fdt true, .pkt ⟨0, 0, true⟩]).completes = 1 := by
+      [.pkt ⟨0, 0, true⟩, .fdt true, .pkt ⟨0, 0, true⟩, .fdt true, .pkt ⟨0, 0, true⟩]).completes = 1 ∧
+    (runObj (canDecodeOf .nocode) rcOn empty {} [.pkt ⟨0, 0, true⟩, .fdt true]).completes = 0 := by
   decide
 
 /-- non-vacuity: a join in the middle of the object (FDT-only OTI: the packet is cached), one block of
@@ -148,7 +196,7 @@ theorem empty_object_never_delivered :
 example : 1 ≤ (runObj (codecOf .nocode).canDecode rcOn
       { toi := 1, scheme := .nocode, ks := #[2], blen := #[], p := 0, inbandFti := false, transfers := 1, carousel := true, noCache := false }
       {} ([.pkt ⟨0, 1, false⟩] ++ Ev.fdt true :: ([] ++ [.pkt ⟨0, 0, false⟩, .pkt ⟨0, 1, false⟩]))).completes := by
-  apply late_join_two_cycles (codecOf .nocode) rcOn _ (by decide) (fits_of_noacct _ _ (by decide) rfl)
+  apply late_join_two_cycles_nonempty (codecOf .nocode) rcOn _ (by decide) (fits_of_noacct _ _ (by decide) rfl)
   · intro s hs
     simp at hs
     rcases hs with rfl | rfl | rfl <;> exact ⟨2, by decide, by decide⟩
